@@ -20,6 +20,6 @@ class Check(PropertyCheck):
                    "(enforced by the factory at pair creation)"]
 
     def families(self, rng, tier):
-        return [("formulas.compute_swap", fam_swap.swap_cases(rng, tier)),
-                ("formulas.compute_swap.monotone", fam_swap.mono_cases(rng, tier)),
-                ("world.commission", fam_world.commission_histories(rng, tier))]
+        return [("formulas.compute_swap", fam_swap.swap_cases(rng.sub("swap_cases"), tier)),
+                ("formulas.compute_swap.monotone", fam_swap.mono_cases(rng.sub("mono_cases"), tier)),
+                ("world.commission", fam_world.commission_histories(rng.sub("commission_histories"), tier))]
